@@ -442,6 +442,13 @@ def check_match(r) -> list[Fail]:
 
         ek, ea, eb = r["edit"]
         edges2, bts2, els2 = list(edges), list(bts), list(els)
+        # every kind of query has been asked once BEFORE the edit (whatever they remember must not survive it)
+        for a_ in src.atoms:
+            list(src.connected_atoms(a_)); list(src.bonds_with_atom(a_)); src.bonded_valence(a_); src.n_bonds_with_atom(a_)
+        if n:
+            list(src.yield_bfsd(src.atoms[0])); list(src.yield_bfs(src.atoms[0]))
+        for b_ in src.bonds:
+            src.is_bond_in_ring(b_)
         what = None
         if ek == "del_bond" and edges2:
             k_ = ea % len(edges2)
@@ -456,6 +463,18 @@ def check_match(r) -> list[Fail]:
                 edges2.append((min(u, v), max(u, v)))
                 bts2.append(1)
                 what = f"connect({u},{v})"
+        elif ek == "move_bond" and edges2 and n >= 2:
+            # one bond deleted and another made: the numbers of atoms and bonds are what they were
+            u, v = ea % n, eb % n
+            if u != v and (min(u, v), max(u, v)) not in edges2:
+                k_ = (ea + eb) % len(edges2)
+                u0, v0 = edges2[k_]
+                src.del_bond(src.lookup_bond(u0, v0))
+                del edges2[k_], bts2[k_]
+                src.connect(u, v, btype=BondType.Single)
+                edges2.append((min(u, v), max(u, v)))
+                bts2.append(1)
+                what = f"del_bond({u0},{v0}) + connect({u},{v})"
         elif ek == "element":
             u = ea % n
             new_el = ELS[eb % len(ELS)]
@@ -491,6 +510,11 @@ def check_match(r) -> list[Fail]:
                 if bool(src.is_bond_in_ring(b)) != (e_ not in br):
                     sub.append(Fail("is_bond_in_ring-wrong-after-edit", f"{where} after {what}: bond {sorted(e_)}"))
                     break
+            for s_i in range(n):
+                got_n = sorted(ix[id(a_)] for a_ in src.connected_atoms(src.atoms[s_i]))
+                if got_n != sorted(adj2[s_i]) or src.n_bonds_with_atom(src.atoms[s_i]) != len(adj2[s_i]):
+                    sub.append(Fail("connected_atoms-wrong-after-edit", f"{where} after {what}: atom {s_i}: {got_n} vs {sorted(adj2[s_i])}"))
+                    break
             fails.extend(sub)
             tally(labels={"requery_after_edit": 1})
     return _dedup(fails)
@@ -505,7 +529,7 @@ def strat_match(tier):
     return st.fixed_dictionaries({
         "graph": _graph_recipe(24 if tier == "quick" else 40), "mode": st.sampled_from(["wildcard", "wildcard", "own_types", "absent"]),
         "seed": i, "size": i, "grow": st.lists(i, min_size=5, max_size=5), "wild": st.integers(0, 63), "shuffle": st.booleans(), "typed": st.sampled_from([0, 1, 2]),
-        "edit": st.one_of(st.none(), st.tuples(st.sampled_from(["del_bond", "connect", "element"]), i, i).map(list)),
+        "edit": st.one_of(st.none(), st.tuples(st.sampled_from(["del_bond", "connect", "element", "move_bond", "move_bond"]), i, i).map(list)),
     })
 
 
